@@ -106,6 +106,11 @@ def _guard_big_integers():
     VmMath._verif_guarded = True
 
 
+# VM instructions executed in this process by budgeted runs (a watchdog can
+# tell a slow run from one that is stuck inside a single instruction)
+PROGRESS = [0]
+
+
 class World:
     """One configured bardolph container + simulated LAN.  The injection
     container is process-wide, so only the most recently built World is live;
@@ -241,6 +246,7 @@ class RunResult:
         def step():
             owner = machine._verif_owner
             owner.steps += 1
+            PROGRESS[0] += 1
             pc = machine._reg.pc
             if not (isinstance(pc, int) and 0 <= pc < len(machine._program)) \
                     and owner.bad_pc is None:
